@@ -61,6 +61,63 @@ package common
 //@   ensures[progress] r.size >= 2 ==> len(r.items) < len(old(r.items)) || len(old(r.items)) == 0
 //@   aux[half]       len(r.items) == len(old(r.items)) - r.size/2
 
+//@ func NewRollingIndex(name string, size int) *RollingIndex
+//@   modifies nothing
+//@   ensures[fresh] ret0 != nil && __fresh(ret0) && ret0.size == size && ret0.lastIndex == -1 && len(ret0.items) == 0
+
+// RollingIndexMap (C16): a map of rolling indexes, one per key, all of the map's size; distinct keys own distinct
+// indexes. Every operation is the corresponding RollingIndex operation on the key's index and leaves the other
+// keys' indexes untouched.
+//@ ghost func (rim *RollingIndexMap) wf() bool { return rim.mapping != nil && rim.size >= 2 && rim.size < 4611686018427387904 && (forall k uint32 :: __in(k, rim.mapping) ==> rim.mapping[k] != nil && __allocated(rim.mapping[k]) && rim.mapping[k].wf() && rim.mapping[k].size == rim.size) && (forall k uint32, j uint32 :: __in(k, rim.mapping) && __in(j, rim.mapping) && k != j ==> rim.mapping[k] != rim.mapping[j]) }
+
+//@ func (rim *RollingIndexMap) AddKey(key uint32) error
+//@   requires rim != nil && rim.wf()
+//@   modifies rim.keys, rim.mapping[*]
+//@   ensures[wf]      rim.wf()
+//@   ensures[exists]  old(__in(key, rim.mapping)) ==> IsStore(ret0, KeyAlreadyExists) && rim.mapping[key] == old(rim.mapping[key])
+//@   ensures[added]   !old(__in(key, rim.mapping)) ==> ret0 == nil && __in(key, rim.mapping) && __fresh(rim.mapping[key]) && rim.mapping[key].lastIndex == -1 && len(rim.mapping[key].items) == 0
+//@   ensures[others]  forall k uint32 :: k != key ==> __in(k, rim.mapping) == old(__in(k, rim.mapping)) && rim.mapping[k] == old(rim.mapping[k])
+
+//@ func (rim *RollingIndexMap) Get(key uint32, skipIndex int) ([]interface{}, error)
+//@   ints checked
+//@   requires rim != nil && rim.wf()
+//@   modifies nothing
+//@   ensures[unknown] !__in(key, rim.mapping) ==> IsStore(ret1, KeyNotFound)
+//@   ensures[ahead]   __in(key, rim.mapping) && skipIndex > rim.mapping[key].lastIndex ==> ret1 == nil && len(ret0) == 0
+//@   ensures[toolate] __in(key, rim.mapping) && skipIndex <= rim.mapping[key].lastIndex && skipIndex+1 < rim.mapping[key].oldest() ==> IsStore(ret1, TooLate)
+//@   ensures[suffix]  __in(key, rim.mapping) && skipIndex <= rim.mapping[key].lastIndex && skipIndex+1 >= rim.mapping[key].oldest() ==> ret1 == nil && len(ret0) == rim.mapping[key].lastIndex - skipIndex && (forall k int :: 0 <= k && k < len(ret0) ==> ret0[k] == rim.mapping[key].items[skipIndex+1+k-rim.mapping[key].oldest()])
+
+//@ func (rim *RollingIndexMap) GetItem(key uint32, index int) (interface{}, error)
+//@   ints checked
+//@   requires rim != nil && rim.wf() && __in(key, rim.mapping)
+//@   modifies nothing
+//@   ensures[toolate]  index < rim.mapping[key].oldest() ==> IsStore(ret1, TooLate)
+//@   ensures[notfound] index > rim.mapping[key].lastIndex ==> IsStore(ret1, KeyNotFound)
+//@   ensures[hit]      rim.mapping[key].oldest() <= index && index <= rim.mapping[key].lastIndex ==> ret1 == nil && ret0 == rim.mapping[key].items[index-rim.mapping[key].oldest()]
+
+//@ func (rim *RollingIndexMap) GetLast(key uint32) (interface{}, error)
+//@   requires rim != nil && rim.wf()
+//@   modifies nothing
+//@   ensures[unknown] !__in(key, rim.mapping) ==> IsStore(ret1, KeyNotFound)
+//@   ensures[empty]   __in(key, rim.mapping) && len(rim.mapping[key].items) == 0 ==> IsStore(ret1, Empty)
+//@   ensures[last]    __in(key, rim.mapping) && len(rim.mapping[key].items) > 0 ==> ret1 == nil && ret0 == rim.mapping[key].items[len(rim.mapping[key].items)-1]
+
+//@ func (rim *RollingIndexMap) Set(key uint32, item interface{}, index int) error
+//@   ints checked
+//@   requires rim != nil && rim.wf() && __in(key, rim.mapping) && index >= 0 && index < 4611686018427387904
+//@   modifies rim.mapping[key].items, rim.mapping[key].lastIndex
+//@   ensures[wf]      rim.wf()
+//@   ensures[skip]    old(rim.mapping[key].lastIndex) >= 0 && index > old(rim.mapping[key].lastIndex)+1 ==> IsStore(ret0, SkippedIndex) && __seqeq(rim.mapping[key].items, old(rim.mapping[key].items)) && rim.mapping[key].lastIndex == old(rim.mapping[key].lastIndex)
+//@   ensures[append]  old(rim.mapping[key].lastIndex) < 0 || index == old(rim.mapping[key].lastIndex)+1 ==> ret0 == nil && rim.mapping[key].lastIndex == index && len(rim.mapping[key].items) >= 1 && rim.mapping[key].items[len(rim.mapping[key].items)-1] == item
+//@   ensures[replace] 0 <= old(rim.mapping[key].lastIndex) && old(rim.mapping[key].oldest()) <= index && index <= old(rim.mapping[key].lastIndex) ==> ret0 == nil && rim.mapping[key].lastIndex == old(rim.mapping[key].lastIndex) && len(rim.mapping[key].items) == len(old(rim.mapping[key].items)) && (forall j int :: 0 <= j && j < len(rim.mapping[key].items) ==> rim.mapping[key].items[j] == __ite(j == index-old(rim.mapping[key].oldest()), item, old(rim.mapping[key].items)[j]))
+//@   ensures[toolate] 0 <= old(rim.mapping[key].lastIndex) && index < old(rim.mapping[key].oldest()) ==> IsStore(ret0, TooLate) && __seqeq(rim.mapping[key].items, old(rim.mapping[key].items)) && rim.mapping[key].lastIndex == old(rim.mapping[key].lastIndex)
+
+//@ func (rim *RollingIndexMap) Known() map[uint32]int
+//@   requires rim != nil && rim.wf()
+//@   modifies nothing
+//@   ensures[known] ret0 != nil && __fresh(ret0) && (forall k uint32 :: __in(k, ret0) == __in(k, rim.mapping)) && (forall k uint32 :: __in(k, rim.mapping) ==> ret0[k] == rim.mapping[k].lastIndex)
+//@   loop 1 invariant[part] known != nil && __fresh(known) && (forall k uint32 :: (__in(k, known) ==> __in(k, rim.mapping) && known[k] == rim.mapping[k].lastIndex) && (__vis(k) ==> __in(k, known)))
+
 // IsMedianOf: m lies between the two middle order statistics of input (it is the middle one for an odd
 // length) whenever those lie in [-2^62, 2^62-1]; s is the sorted rearrangement witnessing it. Opaque for
 // callers (they only need that Median returns an IsMedianOf value); revealed in Median's own proof.
